@@ -12,8 +12,8 @@ import itertools
 import random
 
 from .. import common
-from ..gen_values import (gen_module, gen_config, make_encoder, strict_parser,
-                          DIALECTS)
+from ..gen_values import (gen_module, gen_config, make_encoder, DIALECTS)
+from ..gen_values import strict_parser as _strict_parser
 from ..normalise import snapshot, clone
 
 CHECK = "C16"
@@ -49,17 +49,44 @@ TEXTS = [
     "/* c */ k = 5 <unclosed\n",                      # ... in a units expression
     "/* c */\nn = 16#FF\n",                           # ... in a based number
 ]
-PARSERS = ("PVL", "ODL", "PDS3", "ISIS", "default")
+PARSERS = ("PVL", "ODL", "PDS3", "ISIS", "default", "lenient-PVL", "lenient-ODL")
 # how the long-lived instance is called: directly, through pvl.loads/load with
 # parser=, and through pvl.loads with a grammar and decoder of ANOTHER dialect
 # given alongside (documented as ignored when a parser is given)
 PCALLS = ("parse", "loads", "loads+other", "load")
 ECALLS = ("encode", "dumps", "dumps+other")
-OTHER = {"PVL": "ODL", "ODL": "ISIS", "PDS3": "PVL", "ISIS": "PDS3", "default": "PVL"}
+OTHER = {"PVL": "ODL", "ODL": "ISIS", "PDS3": "PVL", "ISIS": "PDS3", "default": "PVL",
+         "lenient-PVL": "ODL", "lenient-ODL": "PVL"}
 
 
 def nshards(tier):
     return 16
+
+
+_LENIENT = {}
+
+
+def strict_parser(pvl, reader):
+    """The five library configurations, plus two *user subclasses*: a strict
+    PVL / ODL parser that tolerates missing values by re-using the permissive
+    parser's hooks and the base class's ``errors`` list (what the hooks are
+    documented for).  A parser subclass is a parser: one instance must not
+    carry anything from text to text either."""
+    if not reader.startswith("lenient-"):
+        return _strict_parser(pvl, reader)
+    base = reader.split("-", 1)[1]
+    if base not in _LENIENT:
+        P = pvl.parser
+        parent = {"PVL": P.PVLParser, "ODL": P.ODLParser}[base]
+        body = {}
+        for name in ("_empty_value", "parse_value_post_hook", "parse_module_post_hook"):
+            if name in vars(P.OmniParser):
+                body[name] = vars(P.OmniParser)[name]
+        _LENIENT[base] = type("Lenient" + base + "Parser", (parent,), body)
+    G, D = pvl.grammar, pvl.decoder
+    if base == "PVL":
+        return _LENIENT[base](grammar=G.PVLGrammar(), decoder=D.PVLDecoder())
+    return _LENIENT[base](grammar=G.ODLGrammar(), decoder=D.ODLDecoder())
 
 
 def other_pair(pvl, reader):
@@ -113,8 +140,12 @@ def parser_histories(rec, hb, pvl, tier, seed, part, nparts, pristine):
                             rng.randrange(len(TEXTS)))
                            for _ in range(rng.randint(4, 12))))
     n = 0
+    npairs = len(TEXTS) ** 2
     for reader in PARSERS:
-        for h in hists:
+        # the two user subclasses: all pairs and the random histories
+        use = hists if not reader.startswith("lenient-") else \
+            hists[:npairs] + hists[-(300 if tier == "quick" else 40000):]
+        for h in use:
             n += 1
             if n % nparts != part:
                 continue
